@@ -8,7 +8,7 @@ from ..spec import to_statechart, HISTORY, COMPOSITE, TRANSITION_OWNERS
 
 PROP = 'C16'
 LEVEL = 'exploration'
-BUDGET = {'quick': 3200, 'thorough': 64000}
+BUDGET = {'quick': 9600, 'thorough': 128000}
 RULE = ('cases = generated well-formed chart + a sequence of <=25 editing operations (add_state, '
         'remove_state, rename_state, move_state, add_transition, remove_transition, '
         'rotate_transition, assignment of initial/memory) whose arguments are resolved against the '
